@@ -120,3 +120,29 @@ prop("C14", "fault_enumeration",
           "thorough": {"checks": 1500000, "shards": 16, "timeout": 2400}},
      ],
      ["injected RPC errors are non-retryable and hit only non-close requests (server state stays knowable)"])
+
+
+prop("C02", "exploration",
+     "property-based testing (rapid) of the whole client against a simulated cluster under virtual time; oracle = "
+     "responses derived from (row, marker) by the servers",
+     "Generated concurrent callers, groupings into multi-requests, response reordering and result permutation; every "
+     "caller must receive exactly the response (or marked error) the simulated server produced for its request.",
+     "Trusted: the simulated cluster and the independent wire codec. Interleavings inside the client are sampled by the "
+     "Go scheduler, not enumerated.",
+     [
+         {"test": "TestC02_OwnResponse", "quick": {"checks": 4000, "timeout": 300},
+          "thorough": {"checks": 40000, "shards": 16, "timeout": 2400}},
+     ],
+     ["RegionActionResults come back in request order (protocol requirement)"])
+
+prop("C05", "exploration",
+     "property-based testing (rapid): everything the client writes is parsed by an independent HBase RPC decoder and "
+     "compared with the call specifications; concurrent senders on in-memory and loopback-TCP connections",
+     "Generated calls/options/groupings; the byte stream must decode into well-formed frames that equal the "
+     "specifications, for one or many concurrent senders, with and without snappy.",
+     "Trusted: harness/wire (frame, KeyValue, block stream decoders), protobuf-go.",
+     [
+         {"test": "TestC05_ConcurrentSenders", "quick": {"checks": 4000, "timeout": 300},
+          "thorough": {"checks": 40000, "shards": 16, "timeout": 2400}},
+     ],
+     [])
